@@ -39,7 +39,7 @@ fn emit(args: &Args) {
                 continue;
             }
         }
-        let with_variants = matches!(g.family.as_str(), "rec" | "getter" | "random") || ["core_ops", "core_ws", "core_both", "core_kinds", "core_pred", "core_json", "core_empty", "core_wsplus", "core_commentplus", "stack_basic", "stack_nested", "repo_csv"].contains(&g.id.as_str());
+        let with_variants = matches!(g.family.as_str(), "rec" | "getter" | "random") || (g.family == "rand" && g.id.ends_with(|c: char| c == '0' || c == '3' || c == '6' || c == '9')) || ["core_ops", "core_ws", "core_both", "core_kinds", "core_pred", "core_json", "core_empty", "core_wsplus", "core_commentplus", "stack_basic", "stack_nested", "repo_csv"].contains(&g.id.as_str());
         let with_walker = g.family != "kinds" && g.family != "slice";
         match emit::grammar_module(g, with_variants, with_walker) {
             Ok(m) => mods.push((g.id.clone(), m.text, m.rules * if with_variants { 5 } else { 1 }, g.family.clone())),
@@ -117,6 +117,21 @@ fn main() {
         "c11" => genmon::c11(&args),
         "c20det" => genmon::c20_determinism(&args),
         "print" => genmon::print_tokens(&args),
+        "randdump" => {
+            // write seeded random grammars as corpus files (done once; the files are committed)
+            let mut rng = vutil::Rng::new(args.u64("seed", 424242));
+            let dir = PathBuf::from(args.str("dir", "/verif/corpus"));
+            let count = args.u64("count", 24) as usize;
+            let mut made = 0;
+            while made < count {
+                let text = corpus::random_grammar(&mut rng, made % 3 == 0);
+                if refpeg::Grammar::optimized(&text).is_ok() {
+                    let header = format!("// seeded random grammar (vgen --cmd randdump --seed {}), valid for pest and well-founded by construction\n", args.u64("seed", 424242));
+                    std::fs::write(dir.join(format!("rand_{:02}.pest", made)), header + &text).unwrap();
+                    made += 1;
+                }
+            }
+        }
         other => panic!("unknown --cmd {}", other),
     }
 }
